@@ -106,8 +106,8 @@ Theorem comment_closed_only_at_end content :
   exists body, comment_filter (Some BLOCK_START) (Some BLOCK_END) BLOCK_PREFIX content = (body ++ "*/")%string /\
                has_term body = false /\ ends_star body = false.
 Proof.
-  unfold comment_filter, BLOCK_START, BLOCK_PREFIX, BLOCK_END.
-  set (lines := split_on nl (neutralize content)).
+  unfold comment_filter, comment_lines, BLOCK_START, BLOCK_PREFIX, BLOCK_END.
+  set (lines := split_on nl (neutralize (flatten content))).
   assert (HL : Forall (fun l => has_term l = false) lines) by (apply split_no_term, neutralize_no_term).
   set (j := join (String nl " * ") lines).
   assert (Hj : has_term j = false).
@@ -127,8 +127,8 @@ Qed.
 
 (* line comments (Objective-C: no start/end string): every line of the output carries the prefix *)
 Theorem line_comment_prefixed prefix content :
-  comment_filter None None prefix content = (prefix ++ join (String nl prefix) (split_on nl content))%string.
-Proof. unfold comment_filter. now rewrite app_nil_r_s. Qed.
+  comment_filter None None prefix content = (prefix ++ join (String nl prefix) (map fix_line (split_on nl (flatten content))))%string.
+Proof. unfold comment_filter, comment_lines. now rewrite app_nil_r_s. Qed.
 
 (* ---------------- @deprecated messages are well-formed string literal bodies ---------------- *)
 Definition esc_char (a : ascii) : string :=
@@ -146,9 +146,11 @@ Proof.
 Qed.
 
 (* the three sequential str.replace calls are one simultaneous per-character substitution *)
-Theorem escape_msg_is_esc_map m : escape_msg m = esc_map m.
+Definition escape0 (m : string) : string :=
+  replace_char dquote (String bslash (String dquote "")) (replace_char nl (String bslash "n") (replace_char bslash (String bslash (String bslash "")) m)).
+Lemma escape0_is_esc_map m : escape0 m = esc_map m.
 Proof.
-  unfold escape_msg. induction m as [|a m IH]; [reflexivity|].
+  unfold escape0. induction m as [|a m IH]; [reflexivity|].
   cbn [replace_char esc_map]. unfold esc_char.
   destruct (Ascii.eqb_spec a bslash) as [->|Hb].
   - rewrite !replace_char_app, IH. reflexivity.
@@ -158,6 +160,8 @@ Proof.
       * rewrite IH. reflexivity.
       * rewrite IH. reflexivity.
 Qed.
+Theorem escape_msg_is_esc_map m : escape_msg m = esc_map (flatten m).
+Proof. exact (escape0_is_esc_map (flatten m)). Qed.
 
 Lemma lit_ok_esc_char a t : lit_ok false (esc_char a ++ t) = lit_ok false t.
 Proof.
@@ -172,7 +176,7 @@ Qed.
 (* C12: whatever the message contains, the emitted literal body is well formed *)
 Theorem deprecated_literal_well_formed m : lit_ok false (escape_msg m) = true.
 Proof.
-  rewrite escape_msg_is_esc_map. induction m as [|a m IH]; [reflexivity|].
+  rewrite escape_msg_is_esc_map. induction (flatten m) as [|a x IH]; [reflexivity|].
   cbn [esc_map]. now rewrite lit_ok_esc_char.
 Qed.
 
